@@ -287,6 +287,11 @@ def where_of(exc: BaseException) -> str:
     return frames[-1]
 
 
+def exc_name(e: BaseException) -> str:
+    t = type(e)
+    return t.__name__ if t.__module__ == 'builtins' else f'{t.__module__}.{t.__name__}'
+
+
 def tname(mtype: int) -> str:
     return TYPE_NAME.get(mtype, f'TYPE{mtype}')
 
@@ -380,7 +385,7 @@ def seam1(S: Session, mtype: int, body: bytes, measure: bool = False):
     except RecursionError as e:
         out = ('exc', stage, 'RecursionError', where_of(e), '')
     except Exception as e:  # noqa: BLE001
-        out = ('exc', stage, type(e).__name__, where_of(e), str(e)[:120])
+        out = ('exc', stage, exc_name(e), where_of(e), str(e)[:120])
     finally:
         steps = _Steps.n
         _Steps.limit = 1 << 62
@@ -451,7 +456,7 @@ class Seam2:
             return ('notify', e.code, e.subcode, where_of(e))
         if isinstance(e, Notification):
             return ('notification', e.code, e.subcode)
-        return ('exc', type(e).__name__, where_of(e), str(e)[:120])
+        return ('exc', exc_name(e), where_of(e), str(e)[:120])
 
 
 _SEAM2: dict = {}
